@@ -26,6 +26,8 @@ pub struct SView {
     pub subj_rst: bool,
     pub promised_by_peer: bool,
     pub promised_by_subj: bool,
+    /// the subject's RST_STREAM was REFUSED_STREAM: the stream never existed for it
+    pub subj_refused: bool,
     pub peer_flow: i64,
     pub subj_wu: i64,
     pub peer_wu: i64,
@@ -124,10 +126,11 @@ impl View {
                         v.conn_recv_window -= len;
                     }
                 }
-                Parsed::RstStream { sid, .. } => {
+                Parsed::RstStream { sid, code } => {
                     let s = v.streams.entry(*sid).or_default();
                     if from_subj {
                         s.subj_rst = true;
+                        s.subj_refused |= *code == 7;
                     } else {
                         s.peer_rst = true;
                     }
@@ -300,7 +303,10 @@ pub fn classify(v: &View, f: &RawFrame, a: &EvAttr) -> Class {
         Parsed::Data { .. } => match st {
             // RFC 9113 5.1.1: the first use of a new identifier implicitly closes the lower idle ones: DATA there is STREAM_CLOSED
             St::IdleLow => Class::Stream(sid),
-            St::IdleNew | St::IdleOwn | St::ReservedRemote | St::ReservedLocal => Class::Conn,
+            St::IdleNew | St::IdleOwn => Class::Conn,
+            // RFC 9113 5.1 asks for a connection error; the violation is confined to one stream, for which the property
+            // demands "at least a RST_STREAM"
+            St::ReservedRemote | St::ReservedLocal => Class::Stream(sid),
             St::ResetBySubject => {
                 if forgotten {
                     Class::Unspecified
@@ -343,7 +349,8 @@ pub fn classify(v: &View, f: &RawFrame, a: &EvAttr) -> Class {
                         Class::Conn
                     }
                 }
-                St::IdleLow | St::IdleOwn | St::ReservedLocal => Class::Conn,
+                St::IdleLow | St::IdleOwn => Class::Conn,
+                St::ReservedLocal => Class::Stream(sid),
                 St::ReservedRemote => Class::Ok { content: true },
                 St::RecvOpen => {
                     let s = &v.streams[&sid];
@@ -357,7 +364,9 @@ pub fn classify(v: &View, f: &RawFrame, a: &EvAttr) -> Class {
                 }
                 St::RecvEnded | St::ResetByPeer => Class::Stream(sid),
                 St::ResetBySubject => {
-                    if forgotten {
+                    // a refused stream never existed for the subject: late trailers cannot be told from an attempt to reuse
+                    // the identifier (RFC 9113 5.1.1 connection error), so either reaction is acceptable
+                    if forgotten || v.streams[&sid].subj_refused {
                         Class::Unspecified
                     } else {
                         Class::Ok { content: false }
@@ -781,7 +790,11 @@ pub fn events_for(v: &View, s: &StateSpec) -> Vec<Event> {
     let resp = T2::block(&[(":status", "200")]);
     let trailers = T2::block(&[("x-trailer", "t")]);
     let head_block = if server { req.clone() } else { resp.clone() };
-    let sids: Vec<(&str, u32)> = vec![("prim", prim), ("idle-peer", idle_peer), ("own-idle", own_idle)];
+    let mut sids: Vec<(String, u32)> = vec![("prim".to_string(), prim), ("idle-peer".to_string(), idle_peer), ("own-idle".to_string(), own_idle)];
+    // every other stream the history of this state has touched (refused, second open, promised ...)
+    for (&other, _) in v.streams.iter().filter(|(&k, _)| k != prim).take(3) {
+        sids.push((format!("other{}", other), other));
+    }
     for (sl, sid) in &sids {
         let sid = *sid;
         add(&format!("DATA({})", sl), vec![wf::data(sid, &MARK, false)]);
@@ -1081,6 +1094,11 @@ pub fn run_pair(s: &StateSpec, ev_label: &str, verbose: bool) -> Option<PairResu
                 }
                 // declining a stream the peer has just promised (RFC 9113 6.6 / 8.4.2) is the receiver's right
                 if promised.contains(rs) {
+                    continue;
+                }
+                // answering late frames on a stream we have already reset with another RST_STREAM on that same stream is
+                // stream-scoped and explicitly allowed ("MAY ... treat frames that arrive after this time as being in error")
+                if ev.frames.iter().all(|f| f.stream() == *rs) && matches!(state_of(&view, *rs), St::ResetBySubject) {
                     continue;
                 }
                 vios.push(("C09.legal-traffic-penalised".into(), key.clone(), format!("in state {} the frame(s) {} are permitted by RFC 9113, but the endpoint sent RST_STREAM({}, code {})", s.name, ev.label, rs, code)));
